@@ -222,9 +222,15 @@ Fixpoint strip_zeros (l : bytes) : bytes :=
   | _ => l
   end.
 Definition pad_left_to (n : nat) (l : bytes) : bytes := repeat 0 (n - length l) ++ l.
+(* big.Int.SetBytes(b).BitLen(): computed on the octets (equal to bitlen (be_to_N b), Proofs/PgpEntity.v) *)
+Definition bytes_bitlen (b : bytes) : N :=
+  match strip_zeros b with
+  | [] => 0
+  | x :: r => N.size x + 8 * lenN r
+  end.
 (* padToKeySize packet.go:575 *)
 Definition pad_to_key_size (n : mpi) (b : bytes) : bytes :=
-  pad_left_to (N.to_nat ((bitlen (mpi_value n) + 7) / 8)) b.
+  pad_left_to (N.to_nat ((bytes_bitlen (m_bytes n) + 7) / 8)) b.
 
 Definition tag_match (dg tag : bytes) : bool :=
   match dg, tag with
@@ -243,7 +249,7 @@ Definition crypto_check (c : cfg) (P : params) (k : pubkey) (s : sigcore) (dg : 
   else if a =? 17 then
     match pk_mat k, sc_mpis s with
     | KDSA _ q _ _, [r; t] =>
-        let sub := N.to_nat ((bitlen (mpi_value q) + 7) / 8) in
+        let sub := N.to_nat ((bytes_bitlen (m_bytes q) + 7) / 8) in
         let dg' := if Nat.ltb sub (length dg) then take sub dg else dg in
         p_prim P k (sc_hash s) dg' [strip_zeros (m_bytes r); strip_zeros (m_bytes t)]
     | _, _ => Err "unreachable"
